@@ -369,6 +369,32 @@ theorem keys_add_mem {p q : Pipeline Ω α} (hq : q.WF) (hpe : p.empty = false) 
     · exact ⟨s, List.mem_append_left _ hs, r⟩
     · exact ⟨s, List.mem_append_right _ hs, r⟩
 
+/-- `explain()` succeeds iff it succeeds for every step -/
+theorem pipeline_explain_ok (p : Pipeline Ω α) (o : Ω) :
+    (∃ ks, p.explain o = .ok ks) ↔ ∀ s ∈ p.iter, ∃ ks', s.explain o = .ok ks' := by
+  rw [pipeline_explain, seqUnion_ok_iff]
+  constructor
+  · intro h s hs
+    exact h (s.explain o) (by simp only [List.mem_map, List.mem_reverse]; exact ⟨s, hs, rfl⟩)
+  · intro h r hr
+    simp only [List.mem_map, List.mem_reverse] at hr
+    obtain ⟨s, hs, rfl⟩ := hr
+    exact h s hs
+
+/-- `explain()` of a sum succeeds exactly when it succeeds for both operands -/
+theorem explain_add_ok {p q : Pipeline Ω α} (hq : q.WF) (hpe : p.empty = false)
+    (hqe : q.empty = false) (o : Ω) :
+    (∃ ks, (p + q).explain o = .ok ks) ↔
+      (∃ kp, p.explain o = .ok kp) ∧ (∃ kq, q.explain o = .ok kq) := by
+  rw [pipeline_explain_ok, pipeline_explain_ok, pipeline_explain_ok, iter_add hq hpe hqe]
+  constructor
+  · intro h
+    exact ⟨fun s hs => h s (List.mem_append_left _ hs), fun s hs => h s (List.mem_append_right _ hs)⟩
+  · rintro ⟨h1, h2⟩ s hs
+    rcases List.mem_append.1 hs with hs | hs
+    · exact h1 s hs
+    · exact h2 s hs
+
 /-- the same for `explain()` -/
 theorem explain_add_mem {p q : Pipeline Ω α} (hq : q.WF) (hpe : p.empty = false)
     (hqe : q.empty = false) (o : Ω) {ks kp kq : Keys} (h : (p + q).explain o = .ok ks)
